@@ -6,17 +6,10 @@ import Proofs.NoPanic
 import Proofs.Short
 namespace Esdt
 
-/-- one kind per key between sender and destination: where the sender holds an entry WITHOUT metadata, the destination
-    holds none with metadata under the same key (token identifiers do not alias: system-contract discipline) -/
-def Kind (A : Accts) (a b : Bytes) : Prop :=
-  ∀ k t, A.read a k ≠ [] → decToken (A.read a k) = some t → t.md = none →
-    ∀ cur, tokenOf (A.read b k) = some cur → cur.md = none
-
 /-- invariant of the sender-side item loop -/
 structure MInv (c : Call) (A : Accts) : Prop where
   canon : Canon A
   short : Short A
-  kind : ∀ dst, c.args[0]? = some dst → Kind A c.caller dst
 
 theorem Canon.acctVal {A : Accts} (h : Canon A) {a : Bytes} (ha : a ≠ systemAccountAddress) : AcctVal A a := by
   intro s t ht
@@ -60,107 +53,32 @@ theorem itemsSafe_minv (env : Env) (c : Call) (hc : c.caller ≠ systemAccountAd
   constructor
   · -- no panic
     intro l dst tok n q v ctx hne h0 hI
-    refine np_transferOne env c l dst tok n q v ctx (hI.canon.acctVal hc) hne
-      (fun _ => hI.canon.acctVal (hd dst h0)) ?_
-    intro _ t cur hne1 hdec hmdn hcur hcm
-    cases hmd : t.md with
-    | some m => rfl
-    | none =>
-      exfalso
-      have hn0 : n = 0 := by
-        cases n with
-        | zero => rfl
-        | succ n => have := hmdn (Nat.succ_pos n); rw [hmd] at this; cases this
-      subst hn0
-      rw [mdNonce_none hmd] at hcur
-      have := hI.kind dst h0 _ t hne1 hdec hmd cur hcur
-      rw [this] at hcm; cases hcm
+    exact np_transferOne env c l dst tok n q v ctx (hI.canon.acctVal hc) hne (fun _ => hI.canon.acctVal (hd dst h0))
   · -- invariant
     intro l dst tok n q v ctx hne h0 hI
-    apply Post.mono (Post.and (Post.and (transferOne_effect env c l dst tok n q v ctx)
-      (Post.and (canon_transferOne env c l dst tok n q v ctx hI.canon.toM) (sp_transferOne env c l dst tok n q v ctx hI.short)))
-      (transferOne_md env c l dst tok n q v ctx))
-    intro t' c' ⟨⟨⟨t, x, A1, _, _, hne1, hdec, hv, hA1, hf, ht⟩, hCM, hS'⟩, hmdn⟩
-    have hC' : Canon c'.accts := hCM.toCanon hS'
-    refine ⟨hC', hS', ?_⟩
-    intro dst' h0'
-    rw [h0] at h0'; cases h0'
-    have hnum : NumOK t := decToken_num _ _ hdec
-    -- the written key
-    intro k t0 hk0 hdec0 hmd0 cur0 hcur0
-    by_cases hkW : k = nftKey (esdtKeyPrefix ++ tok) (mdNonce t)
-    · subst hkW
-      -- the sender's slot after the step holds the debited entry
-      have hread : c'.accts.read c.caller (nftKey (esdtKeyPrefix ++ tok) (mdNonce t)) =
-          nftStoredForm { t with value := some (x - q) } := by
-        cases l
-        · rw [(hf rfl).2, hA1, Accts.read_write, if_pos ⟨rfl, rfl⟩]
-        · obtain ⟨_, _, _, _, _, _, hw⟩ := ht rfl
-          rw [hw, Accts.read_write, if_neg (fun ⟨e, _⟩ => hne e), hA1, Accts.read_write, if_pos ⟨rfl, rfl⟩]
-      have hl := hS' c.caller (nftKey (esdtKeyPrefix ++ tok) (mdNonce t))
-      rw [hread] at hk0 hdec0 hl
-      have hmdt : t.md = none := by
-        rcases nftStoredForm_cases { t with value := some (x - q) } with he | he
-        · exact absurd he hk0
-        · rw [he] at hdec0 hl
-          rw [roundtrip_of_length _ (hnum.withValue _) hl] at hdec0
-          cases hdec0; exact hmd0
-      -- the sender's entry before the step was under the same key (nonce 0) and had no metadata
-      have hn0 : n = 0 := by
-        cases n with
-        | zero => rfl
-        | succ n => have := hmdn t hdec (Nat.succ_pos n); rw [hmdt] at this; cases this
-      subst hn0
-      rw [mdNonce_none hmdt] at hcur0
-      cases l
-      · rw [(hf rfl).2, hA1, Accts.read_write, if_neg (fun ⟨e, _⟩ => hne e.symm)] at hcur0
-        exact hI.kind dst h0 _ t hne1 hdec hmdt cur0 hcur0
-      · obtain ⟨cur, cv, _, _, _, e, hw⟩ := ht rfl
-        rw [mdNonce_none hmdt] at hw
-        rw [hw, Accts.read_write, if_pos ⟨rfl, rfl⟩] at hcur0
-        have hl2 := hS' dst (nftKey (esdtKeyPrefix ++ tok) 0)
-        rw [hw, Accts.read_write, if_pos ⟨rfl, rfl⟩] at hl2
-        have hnum' : NumOK t' := by rw [e]; exact hnum.withValue _
-        rcases tokenOf_nftStoredForm_md t' cur0 hnum' hl2 hcur0 with h | h
-        · exact h
-        · rw [h, e]; exact hmdt
-    · -- another key: both reads are as before the step
-      have hr1 : c'.accts.read c.caller k = ctx.accts.read c.caller k := by
-        cases l
-        · rw [(hf rfl).2, hA1, Accts.read_write, if_neg (fun ⟨_, e⟩ => hkW e.symm)]
-        · obtain ⟨_, _, _, _, _, _, hw⟩ := ht rfl
-          rw [hw, Accts.read_write, if_neg (fun ⟨_, e⟩ => hkW e.symm), hA1, Accts.read_write,
-            if_neg (fun ⟨_, e⟩ => hkW e.symm)]
-      have hr2 : c'.accts.read dst k = ctx.accts.read dst k := by
-        cases l
-        · rw [(hf rfl).2, hA1, Accts.read_write, if_neg (fun ⟨_, e⟩ => hkW e.symm)]
-        · obtain ⟨_, _, _, _, _, _, hw⟩ := ht rfl
-          rw [hw, Accts.read_write, if_neg (fun ⟨_, e⟩ => hkW e.symm), hA1, Accts.read_write,
-            if_neg (fun ⟨_, e⟩ => hkW e.symm)]
-      rw [hr1] at hk0 hdec0
-      rw [hr2] at hcur0
-      exact hI.kind dst h0 k t0 hk0 hdec0 hmd0 cur0 hcur0
+    apply Post.mono (Post.and (canon_transferOne env c l dst tok n q v ctx hI.canon.toM)
+      (sp_transferOne env c l dst tok n q v ctx hI.short))
+    intro t' c' ⟨hCM, hS'⟩
+    exact ⟨hCM.toCanon hS', hS'⟩
 
 end Esdt
 
 namespace Esdt
 
-/-- the invariant used for both sides: the kind clause only matters (and is only required) on the sender side -/
-def MInv2 (c : Call) (A : Accts) : Prop :=
-  Canon A ∧ Short A ∧ (c.caller = c.rcv → ∀ dst, c.args[0]? = some dst → Kind A c.caller dst)
+/-- the invariant used for both sides -/
+def MInv2 (_c : Call) (A : Accts) : Prop := Canon A ∧ Short A
 
-theorem MInv2.of_minv {c : Call} {A : Accts} (h : MInv c A) : MInv2 c A := ⟨h.canon, h.short, fun _ => h.kind⟩
-theorem MInv2.to_minv {c : Call} {A : Accts} (h : MInv2 c A) (hs : c.caller = c.rcv) : MInv c A :=
-  ⟨h.1, h.2.1, h.2.2 hs⟩
+theorem MInv2.of_minv {c : Call} {A : Accts} (h : MInv c A) : MInv2 c A := ⟨h.canon, h.short⟩
+theorem MInv2.to_minv {c : Call} {A : Accts} (h : MInv2 c A) : MInv c A := ⟨h.1, h.2⟩
 
 theorem itemsSafe2 (env : Env) (c : Call) (hs : c.caller = c.rcv) (hc : c.caller ≠ systemAccountAddress)
     (hd : ∀ dst, c.args[0]? = some dst → dst ≠ systemAccountAddress) : ItemsSafe env c (MInv2 c) := by
   have base := itemsSafe_minv env c hc hd
   constructor
   · intro l dst tok n q v ctx hne h0 hI
-    exact base.one_np l dst tok n q v ctx hne h0 (hI.to_minv hs)
+    exact base.one_np l dst tok n q v ctx hne h0 hI.to_minv
   · intro l dst tok n q v ctx hne h0 hI
-    apply Post.mono (base.one_inv l dst tok n q v ctx hne h0 (hI.to_minv hs))
+    apply Post.mono (base.one_inv l dst tok n q v ctx hne h0 hI.to_minv)
     intro _ _ h; exact MInv2.of_minv h
 
 theorem destItemsSafe2 (env : Env) (c : Call) (hs : c.caller ≠ c.rcv) (hr : c.rcv ≠ systemAccountAddress) :
@@ -169,12 +87,12 @@ theorem destItemsSafe2 (env : Env) (c : Call) (hs : c.caller ≠ c.rcv) (hr : c.
   · intro t tok mv ctx hI hv hmd
     refine np_addNFTToDestination env c.rcv t _ mv c.rae ctx hv ?_
     intro cur hcur
-    exact ⟨(hI.1.acctVal hr).nft tok _ cur hcur, fun _ => hmd⟩
+    exact (hI.1.acctVal hr).nft tok _ cur hcur
   · intro t tok mv ctx hI ⟨b, hdec⟩
     apply Post.mono (Post.and (spec_addNFTToDestination env c.rcv t _ mv c.rae ctx)
-      (sp_addNFTToDestination env c.rcv t _ mv c.rae ctx hI.2.1))
+      (sp_addNFTToDestination env c.rcv t _ mv c.rae ctx hI.2))
     intro _ c' ⟨⟨cur, tv, cv, _, _, _, _, _, _, ht', _, hw⟩, hS'⟩
-    refine ⟨CanonM.toCanon ?_ hS', hS', fun e => absurd e hs⟩
+    refine ⟨CanonM.toCanon ?_ hS', hS'⟩
     rw [hw]
     apply canon_write _ _ _ hI.1.toM
     intro _ _
@@ -183,8 +101,8 @@ theorem destItemsSafe2 (env : Env) (c : Call) (hs : c.caller ≠ c.rcv) (hr : c.
   · intro tok d ctx hI
     exact np_addToESDTBalance _ _ _ _ _ (hI.1.acctVal hr tok)
   · intro tok d ctx hI
-    apply Post.mono (Post.and (spec_addToESDTBalance c.rcv _ d c.rae ctx) (sp_addToESDTBalance c.rcv _ d c.rae ctx hI.2.1))
+    apply Post.mono (Post.and (spec_addToESDTBalance c.rcv _ d c.rae ctx) (sp_addToESDTBalance c.rcv _ d c.rae ctx hI.2))
     intro _ c' ⟨⟨t, v, ht, hty, hv, hnn, _, hw⟩, hS'⟩
-    exact ⟨(OneWrite.canon ⟨ht, hty, hv, hnn, hw⟩ hI.1 (tokKey_esdt tok)).toCanon hS', hS', fun e => absurd e hs⟩
+    exact ⟨(OneWrite.canon ⟨ht, hty, hv, hnn, hw⟩ hI.1 (tokKey_esdt tok)).toCanon hS', hS'⟩
 
 end Esdt
